@@ -43,10 +43,10 @@ def opq(q):
     return q in {rp(n) for n in COMB}
 
 
-def ev(fx, rep, rule, key, path, opaque=None):
+def ev(fx, rep, rule, key, path, opaque=None, through_mut=False):
     opaque = opaque or opq
     rep.fn(path)
-    sy = S.Sym(fx, opaque=opaque)
+    sy = S.Sym(fx, opaque=opaque, inline_mut=through_mut, thread_places=through_mut)
     try:
         return sy, sy.eval_body(fx.bodies[path])
     except S.Undecidable as e:
@@ -738,10 +738,11 @@ def check_iterator(fx, rep, rule):
     check_iterator_overrides(fx, rep, rule, "mapping::ProguardRecordIter", "ProguardRecordIter")
     use(fx)
     rec = rp("parse_proguard_record")
-    sy, res = ev(fx, rep, rule, "%s/iterator" % rule, p, opaque=lambda q: q == rec)
+    sy, res = ev(fx, rep, rule, "%s/iterator" % rule, p, opaque=lambda q: q == rec, through_mut=True)      # (a private `&mut self` step helper is evaluated through)
     if res is None:
         return
     slf = ("in", "self")
+    SLICE = A.record_iter_field(fx) or "slice"       # role: the iterator's only field (the unparsed rest), whatever its name
     good = len(res) == 2
     desc = []
     prw = pair_struct_rw(fx)
@@ -755,14 +756,14 @@ def check_iterator(fx, rep, rule):
         res = res2
     for st, (k, v) in res:
         a = fc.assignment(st.conds)
-        e = a.get(("empty", mk_field(slf, "slice")))
+        e = a.get(("empty", mk_field(slf, SLICE)))
         effs = [x for x in st.effects if x[0] == "assign"]
         desc.append("%s -> %s ; %s" % (S.cstr(st.conds), S.tstr(v)[:80], [S.tstr(x)[:120] for x in effs]))
-        r = call(rec, mk_field(slf, "slice"))
+        r = call(rec, mk_field(slf, SLICE))
         if e is True:
             good = good and v == NONE and not effs
         elif e is False:
-            good = good and v == some(mk_field(r, "0")) and effs == [("assign", ("place", "self", ("slice",)), mk_field(r, "1"))]
+            good = good and v == some(mk_field(r, "0")) and effs == [("assign", ("place", "self", (SLICE,)), mk_field(r, "1"))]
         else:
             good = False
     rep.check(rule, "%s/iterator/next" % rule, good, loc=F.short_file(fx.bodies[p]["sp"]), found=desc,
